@@ -33,7 +33,7 @@ CONFIGS = {
 
 
 def bounds(tier):
-    return dict(tier=tier, field_types=[space.show(f) for f in FIELD_TYPES], layouts=len(_layouts(tier)), configs=list(CONFIGS) + ["plain-codec", "discriminator"],
+    return dict(tier=tier, field_types=[space.show(f) for f in FIELD_TYPES], layouts=len(_layouts(tier)), configs=list(CONFIGS) + ["plain-codec", "discriminator", "kw_only dataclass (defaulted before required)"],
                 pool=len(foreign.POOL), corruptions=["single", "pair"], entry_points=["mixin", "codec"])
 
 
@@ -63,6 +63,13 @@ def units(tier):
                 out.append((lay, c, "mixin"))
             out.append((lay, "default", "plain"))
             out.append((lay, "default", "discriminator"))
+    # keyword-only dataclasses: a defaulted field may be declared BEFORE a required one
+    F = FIELD_TYPES[:8]
+    for a, b in itertools.product(F, repeat=2):
+        out.append((((a, "dflt"), (b, "req")), "default", "kwonly"))
+        out.append((((a, "none"), (b, "req")), "default", "kwonly"))
+    for a, b, c in itertools.product(FIELD_TYPES[:4], repeat=3):
+        out.append((((a, "req"), (b, "dflt"), (c, "req")), "default", "kwonly"))
     out.append(((), "default", "mixin"))
     out.append(((), "default", "plain"))
     return out
@@ -277,7 +284,7 @@ def run_unit(unit, only=None):
     lay, cfgname, kind = unit
     res = core.UnitResult()
     cfg = dict(CONFIGS[cfgname])
-    variant = "plain" if kind == "plain" else "mixin"
+    variant = {"plain": "plain", "kwonly": "kwonly"}.get(kind, "mixin")
     desc = ("dc", variant, tuple(lay))
 
     def V(clause, oc, label, detail, facts=None):
@@ -294,9 +301,9 @@ def run_unit(unit, only=None):
         o = ref.opts()
         fns = []
         disc = None
-        if kind == "mixin":
+        if kind in ("mixin", "kwonly"):
             fns.append(("mixin", cls.from_dict, cls))
-        if kind in ("mixin", "plain") and cfgname == "default":
+        if kind in ("mixin", "plain", "kwonly") and cfgname == "default":
             fns.append(("codec", BasicDecoder(cls).decode, cls))
         if kind == "discriminator":
             ctx.ns["_Sub"] = cls
